@@ -27,11 +27,15 @@ def main():
     for d in sorted(x for x in glob.glob(os.path.join(SRC, "C[0-9][0-9]_*[a-z0-9]")) if os.path.isdir(x)):
         name = os.path.basename(d)
         results = {}
+        hist = {}
         for f in sorted(glob.glob(os.path.join(RES, name + "*.json"))):
             r = load(f)
             if r:
                 for k, v in r.items():
                     if k.startswith("check_"):
+                        # several evaluations of the same check (before / after a strengthening): the last one counts,
+                        # the sequence of exit codes is kept
+                        hist.setdefault(k[6:], []).append({"file": os.path.basename(f), "exit": v.get("exit"), "violations": len(v.get("violations") or [])})
                         results[k[6:]] = v
                     elif k not in results or results.get(k) is None:
                         results[k] = v
@@ -58,6 +62,7 @@ def main():
             "how": "harness/seedtest.py: two scratch worktrees of /repo (clean, patched) under /tmp, demo.py on both, full suite on the patched one (-n 12), then ./check <property> quick with PYTHONPATH/VSG_REPO pointing at the patched worktree; worktrees removed afterwards",
             "checks_run": {p: {"exit": v["exit"], "violations": v["violations"][:4], "wall_s": v["wall"]} for p, v in checks.items()},
             "caught_by": caught,
+            "evaluation_history": hist,
             "what_the_check_reported": (results.get("replays") or [])[:4],
         }
         with open(os.path.join(dst, "meta.json"), "w") as f:
